@@ -6,7 +6,7 @@ control sequences, lone ESC / '[').  Oracle: the reference terminal run over the
 """
 import itertools
 from .. import env
-from ..env import AnsiString, AnsiStr
+from ..env import AnsiString, AnsiStr, AnsiSetting
 from .. import refterm as rt
 from .. import model
 
@@ -44,7 +44,13 @@ def check_raw(raw, cls='AnsiString'):
     """Returns (violations, ambiguous, n_sgr)."""
     d = rt.interpret(raw)
     try:
-        v = AnsiString(raw) if cls == 'AnsiString' else AnsiStr(raw)
+        if cls == 'reuse':
+            # the parser entry point on an object that has been used before: nothing of the old content may survive
+            v = AnsiString('wxyzwxyz', AnsiSetting('35'), AnsiSetting('4'))
+            v.apply_formatting(AnsiSetting('41'), 1, 3)
+            v.set_ansi_str(raw)
+        else:
+            v = AnsiString(raw) if cls == 'AnsiString' else AnsiStr(raw)
         text, cells = model.alpha_codes(v)
     except Exception as e:  # noqa
         return [('parse-raises', '%s(%r) raised %s: %s' % (cls, raw, type(e).__name__, e))], d.ambiguous, d.n_sgr
@@ -163,7 +169,7 @@ def run_task(task, acc):
         if sq:
             acc.transitions += 1
         acc.current = raw
-        classes = ('AnsiString', 'AnsiStr') if len(sq) <= ns else ('AnsiString',)
+        classes = ('AnsiString', 'AnsiStr', 'reuse') if len(sq) <= ns else ('AnsiString',)
         amb, n = run_raw(raw, acc, classes)
         if n:
             acc.nontrivial_count += 1
